@@ -1,5 +1,81 @@
 import GT.Base.JsonQ
-open Lean GT.J
+import GT.Base.DMat
+import GT.Model.Obj
+import GT.Model.Action
+import GT.Lemmas.Action
+import GT.Driver.C04
+open Lean GT.J GT GT.Act
 namespace GT.Driver.C03
-def ops : List (String × Handler) := []
+open GT.Driver.C04 (ndf ndOf ofND modeOf liftE)
+
+def kindOf (s : String) : R Kind := match s with
+  | "point" => pure .point | "pair" => pure .pair | "segment" => pure .segment
+  | "geodesic" => pure .geodesic | "polygon" => pure .polygon | "simplex" => pure .simplex
+  | "tangent" => pure .tangent | "horosphere" => pure .horosphere | "hyperplane" => pure .hyperplane
+  | "subspace" => pure .subspace | "transformation" => pure .transformation
+  | _ => throw "unknown kind"
+
+def optNd (j : Json) (k : String) : R (Option (ND ℚ)) :=
+  match j.getObjVal? k with
+  | .ok .null => pure none
+  | .ok v => do return some (← ndOf v)
+  | .error _ => pure none
+
+def objOf (j : Json) : R (Obj ℚ) := do
+  return ⟨← kindOf (← strf j "kind"), ← ndf j "proj", ← optNd j "aux", ← optNd j "dual"⟩
+
+def ofOpt (a : Option (ND ℚ)) : Json := match a with
+  | none => .null
+  | some x => ofND x
+
+def ofObj (X : Obj ℚ) : Json :=
+  Json.mkObj [("proj", ofND X.proj), ("aux", ofOpt X.aux), ("dual", ofOpt X.dual),
+    ("shape", .arr (X.shape.toArray.map fun n => .num (JsonNumber.fromNat n)))]
+
+/-- `Transformation(A).apply(X, broadcast=mode)` -/
+def opApply (j : Json) : R Json := do
+  let X ← objOf j
+  let A ← ndf j "A"
+  match X.apply A (← modeOf (← strf j "mode")) with
+  | .ok Y => return ofObj Y
+  | .error e => throw e
+
+/-- `(A @ B).matrix` -/
+def opCompose (j : Json) : R Json := do
+  liftE (matrixProduct (← ndf j "B") (← ndf j "A") 2 2 .elementwise)
+
+def dmatOf (n : Nat) (j : Json) : R (DMat n n ℚ) := do
+  return DMat.ofMatrix (← mat n n j)
+
+/-- `rep[word] @ p`: the column action `ρ(w)·p` with `ρ(w)` the product of the generators'
+column matrices in word order (executed through `DMat`, proved equal to `wordMat`) -/
+def opWordAct (j : Json) : R Json := do
+  let n ← natf j "n"
+  let gs ← arr (← field j "gens")
+  let gens ← gs.mapM fun g => do
+    let nm ← strf g "name"
+    let m ← dmatOf n (← field g "m")
+    return (nm, m)
+  let w ← arr (← field j "word")
+  let letters ← w.mapM str
+  for l in letters do
+    if (gens.toList.lookup l).isNone then throw "KeyError"
+  let look : String → DMat n n ℚ := fun l => (gens.toList.lookup l).getD DMat.one
+  let M := wordD look letters.toList
+  let p ← vecf n j "p"
+  return Json.mkObj [("mat", ofMat M.toMatrix), ("col", ofVec (M.toMatrix.mulVec p)),
+    ("row", ofVec (actRow (wrap M.toMatrix) p))]
+
+/-- contract check for `utils.invert`: is `Ainv` the exact inverse of `A`? -/
+def opInvCheck (j : Json) : R Json := do
+  let n ← natf j "n"
+  let A ← matf n n j "A"
+  let B ← matf n n j "Ainv"
+  let P := (DMat.ofMatrix (A * B)).toMatrix
+  return .bool ((List.finRange n).all fun i => (List.finRange n).all fun k =>
+    P i k == if i = k then 1 else 0)
+
+def ops : List (String × Handler) :=
+  [("c03.apply", opApply), ("c03.compose", opCompose), ("c03.word_act", opWordAct),
+   ("c03.inv_check", opInvCheck)]
 end GT.Driver.C03
